@@ -1067,10 +1067,29 @@ def apply_slice(src, ed, open_idx, close_idx, table, what, forbidden=()):
         kind, repl = row[1]
         if "\\" in repl:
             repl = mobj.expand(repl)   # identifiers captured from the real statement are passed through
-        assert kind in ("abstract", "abstract_break", "abstract_try")
+        assert kind in ("abstract", "abstract_break", "abstract_try", "abstract_exits")
+        inner_loops = [(l["open"], l["close"]) for l in find_loops(src, s, e)] if kind == "abstract_exits" else []
         for k in range(s, e):
             t = toks[k]
             if kind == "abstract_break" and t.kind == "ident" and t.text == "break" and "break" in repl:
+                continue
+            if kind == "abstract_exits":
+                # the statement may leave the FUNCTION early, but only with an error: every `return` is
+                # `return Err(..)`, `?` propagates an Err; the replacement is `CALL?;` on a stub returning
+                # Result<(), E> (it errs exactly when the statement would have left). break / continue
+                # are allowed only inside the statement's own loops.
+                if t.kind == "ident" and t.text == "return":
+                    if not (toks[k + 1].text == "Err" and toks[k + 2].text == "("):
+                        raise Undecided("slice %s: abstract statement `%s...` returns something other than an Err" % (what, text[:40]))
+                    continue
+                if t.kind == "punct" and t.text == "?":
+                    continue
+                if t.kind == "ident" and t.text in ("break", "continue"):
+                    if not any(o < k < c for o, c in inner_loops):
+                        raise Undecided("slice %s: abstract statement `%s...` contains `%s`" % (what, text[:40], t.text))
+                    continue
+                if t.kind == "ident" and t.text in forbidden:
+                    raise Undecided("slice %s: abstract statement `%s...` mentions `%s`" % (what, text[:40], t.text))
                 continue
             if t.kind == "ident" and t.text in ("break", "continue", "return"):
                 raise Undecided("slice %s: abstract statement `%s...` contains `%s`" % (what, text[:40], t.text))
@@ -1081,6 +1100,8 @@ def apply_slice(src, ed, open_idx, close_idx, table, what, forbidden=()):
                     raise Undecided("slice %s: abstract statement `%s...` contains `?`" % (what, text[:40]))
             if t.kind == "ident" and t.text in forbidden:
                 raise Undecided("slice %s: abstract statement `%s...` mentions `%s`" % (what, text[:40], t.text))
+        if kind == "abstract_exits" and not repl.rstrip().endswith("?;"):
+            raise Undecided("slice %s: abstract_exits replacement must end in `?;`" % what)
         ed.replace(toks[s].pos, toks[e - 1].end, repl, rule="R6 %s: abstracted `%s...`" % (what, text[:50]))
         SKIP.append((s, e))
         res.append(("abstract", text[:70]))
